@@ -221,7 +221,8 @@ class Graph:
                     if kind in ('Overflow(Shl)', 'Overflow(Shr)') and shift_const_ok(t.get('operands', ''), m.get('local_tys', [])):
                         continue      # shift by a literal smaller than the operand width cannot overflow
                     src = Source(p, 'assert', kind, ('macro:' + macro) if foreign else self.label(p, sp), where, macro)
-                    src.discharged = guarded_arith(self.facts, p, sp, kind) or enumerate_index(self.facts, p, sp, kind)
+                    src.discharged = guarded_arith(self.facts, p, sp, kind) or enumerate_index(self.facts, p, sp, kind) or \
+                        (consumed_prefix(self.facts, p, sp, 'sub') if kind == 'Overflow(Sub)' else None)
                     out.append(src)
                 elif t['k'] in ('Call', 'TailCall'):
                     c = t.get('inst') or t.get('callee')
@@ -242,7 +243,7 @@ class Graph:
                         if '{' in lab:
                             lab = lab[:lab.index('{') + 1]      # a closure / async block argument: its text is not part of the key
                         src = Source(p, 'may-panic-call', short(c), lab, where, macro)
-                        src.discharged = lock_poison(t)
+                        src.discharged = lock_poison(t) or (consumed_prefix(self.facts, p, t.get('fn_sp') or sp, 'advance') if (c or '').endswith('>::advance') else None)
                         out.append(src)
         for src in out:
             # the key names the enclosing *function*: code may move between a function, its closures and its async block
@@ -527,6 +528,57 @@ def enumerate_index(facts, body_path, src_sp, kind):
                     if (e.get('callee') or '') == 'core::iter::traits::iterator::Iterator::enumerate':
                         return 'the operand is an enumerate() index'
                     e = e['recv']
+    return None
+
+def consumed_prefix(facts, body_path, sp, what):
+    """D4: `buf.len() - rest.len()` (and `buf.advance(that)`) where `rest` is the remainder a parser returned for `buf` (or for a
+    slice of it): the remainder is a suffix of the input, so the difference neither underflows nor exceeds the buffer."""
+    rec = hir_owner(facts, body_path)
+    if rec is None:
+        return None
+    B = _hirq.Body(facts, rec)
+    if what == 'advance':
+        cands = [n for n in B.nodes if n['k'] == 'MethodCall' and n['name'] == 'advance' and n.get('sp') and
+                 (list(n['sp'][:5]) == list(sp[:5]) or (n['sp'][0] == sp[0] and n['sp'][3:5] == sp[3:5]))]
+        if len(cands) != 1 or len(cands[0]['args']) != 1:
+            return None
+        e = _hirq.resolve_expr(B, cands[0]['args'][0])
+        target = cands[0]['recv']
+    else:
+        cands = [n for n in B.nodes if n['k'] == 'Binary' and n.get('sp') and list(n['sp'][:5]) == list(sp[:5])]
+        if len(cands) != 1:
+            return None
+        e, target = cands[0], None
+    if e['k'] != 'Binary' or e['op'] != 'Sub':
+        return None
+    def len_of(x):
+        x = _hirq.peel_refs(_hirq.resolve_expr(B, x))
+        if x['k'] == 'MethodCall' and x['name'] == 'len' and not x['args']:
+            return x['recv']
+        o = B.origin(x)        # a local that received `y.len()` through a tuple / match arm
+        if o[0][0] == 'call' and not o[1] and o[0][1].rsplit('::', 1)[-1] == 'len':
+            n = B.by_id.get(o[0][2])
+            if n is not None and n['k'] == 'MethodCall' and not n['args']:
+                return n['recv']
+        return None
+    a, b = len_of(e['l']), len_of(e['r'])
+    if a is None or b is None:
+        return None
+    if target is not None and _hirq.strip_casts(B.origin(target))[0] != _hirq.strip_casts(B.origin(a))[0]:
+        return None
+    oa = B.origin(a)
+    ob = B.origin(b)
+    if ob[0][0] != 'call':
+        return None
+    call = B.by_id.get(ob[0][2])
+    if call is None:
+        return None
+    from facts import call_args as _call_args
+    feeds = any(B.origin(x)[0] == oa[0] for x in _call_args(call))
+    # the remainder is the first component of the parser's Ok payload
+    proj_ok = any(pr[0] == 'tup' and pr[1] == 0 for pr in ob[1]) and any(pr[0] in ('variant', 'try') for pr in ob[1])
+    if feeds and proj_ok and ('parse' in ob[0][1]):
+        return 'the subtrahend is the length of the remainder returned by %s for the same buffer (a suffix of it)' % ob[0][1].rsplit('::', 1)[-1]
     return None
 
 def lock_poison(term):
